@@ -109,8 +109,8 @@ func TestNullableAndFamily(t *testing.T) {
 		`_r : 'a' ; t : 'b' { _r | [ 'c' ] } ;`: true,
 	}
 	for src, want := range hang {
-		if got := predictedHang(mustParse(t, src)); got != want {
-			t.Errorf("predictedHang(%s) = %v, want %v", src, got, want)
+		if got := nullableRepBody(mustParse(t, src)); got != want {
+			t.Errorf("nullableRepBody(%s) = %v, want %v", src, got, want)
 		}
 	}
 	fam := map[string]string{
@@ -319,11 +319,11 @@ func indexOf(s, sub string) int {
 }
 
 func TestEnumerationDeterministic(t *testing.T) {
-	a, sa, err := Enumerate("quick")
+	a, sa, err := Enumerate("quick", false)
 	if err != nil {
 		t.Fatal(err)
 	}
-	b, _, _ := Enumerate("quick")
+	b, _, _ := Enumerate("quick", false)
 	if len(a) != len(b) {
 		t.Fatalf("different sizes %d %d", len(a), len(b))
 	}
@@ -344,15 +344,23 @@ func TestEnumerationDeterministic(t *testing.T) {
 		if g.Text() != a[i].Text {
 			t.Fatalf("round trip changed the grammar:\n%s\n%s", a[i].Text, g.Text())
 		}
-		if a[i].Heavy && !a[i].Family {
-			t.Fatalf("predicted hang outside the family: %s", a[i].Text)
-		}
 		if err := a[i].G.CheckRefs(); err != nil {
 			t.Fatalf("%s: %v", a[i].Text, err)
 		}
 	}
 	if len(a) < 1000 || len(a) > 3500 {
 		t.Errorf("quick scope has %d cases", len(a))
+	}
+	// leaving the nullable-repetition grammars out gives exactly the earlier
+	// scope, as a subset with the same ids
+	old, so, _ := Enumerate("quick", true)
+	if len(old) != 2813 || so.SkippedNullable != 304 || len(a) != len(old)+so.SkippedNullable {
+		t.Errorf("old scope %d cases, %d skipped; new scope %d", len(old), so.SkippedNullable, len(a))
+	}
+	for _, c := range old {
+		if !seen[c.ID] {
+			t.Fatalf("case %s of the earlier scope is missing", c.ID)
+		}
 	}
 	t.Logf("quick: %d cases, %+v", len(a), sa)
 }
